@@ -18,7 +18,7 @@ import time
 VERIF = os.path.dirname(os.path.dirname(os.path.abspath(__file__)))
 SIM = os.path.join(VERIF, "sim")
 BUILD = os.path.join(VERIF, ".build")
-BIN = os.path.join(BUILD, "sim.test")
+BIN = os.path.join(BUILD, "sim-%d.test" % os.getpid())
 GO = "go1.26.8"
 
 ENV = dict(os.environ)
@@ -52,15 +52,29 @@ def die(code, msg):
     sys.exit(code)
 
 
+import atexit
+
+
+def _cleanup_bin():
+    try:
+        os.remove(BIN)
+    except OSError:
+        pass
+
+
+atexit.register(_cleanup_bin)
+
+
 def build():
     os.makedirs(BUILD, exist_ok=True)
     repo = os.environ.get("SIM_REPO", "/repo")
     args = [GO, "test", "-c", "-tags", "verif", "-o", BIN]
     if repo != "/repo":
         mod = open(os.path.join(SIM, "go.mod")).read().replace("=> /repo", "=> " + repo)
-        alt = os.path.join(BUILD, "alt.mod")
+        alt = os.path.join(BUILD, "alt-%d.mod" % os.getpid())
         open(alt, "w").write(mod)
-        shutil.copy(os.path.join(SIM, "go.sum"), os.path.join(BUILD, "alt.sum"))
+        shutil.copy(os.path.join(SIM, "go.sum"), os.path.join(BUILD, "alt-%d.sum" % os.getpid()))
+        atexit.register(lambda: [os.path.exists(f) and os.remove(f) for f in (alt, alt[:-4] + ".sum")])
         args += ["-modfile", alt]
     args += ["."]
     p = subprocess.run(args, cwd=SIM, env=ENV, stdout=subprocess.PIPE, stderr=subprocess.STDOUT, text=True)
@@ -128,6 +142,21 @@ def run_workers(jobs, timeout):
             log += "\n(run in progress when the worker stopped: seed=%d)" % last_start
         out.append((job, results, rc, log))
     return out, rundir
+
+
+def sweep_build():
+    try:
+        for d in os.listdir(BUILD):
+            if d.startswith("run-") or d.startswith("sim-"):
+                pid = d.split("-")[1].split(".")[0]
+                if not os.path.exists("/proc/" + pid):
+                    pth = os.path.join(BUILD, d)
+                    if os.path.isdir(pth):
+                        shutil.rmtree(pth, ignore_errors=True)
+                    else:
+                        os.remove(pth)
+    except Exception:
+        pass
 
 
 def sweep_shm():
@@ -223,6 +252,7 @@ def check(prop, tier):
         budget = float(os.environ["VERIF_BUDGET"])
     build()
     sweep_shm()
+    sweep_build()
     ncpu = os.cpu_count() or 4
     workers = int(os.environ.get("VERIF_WORKERS", str(min(16, ncpu))))
     known_keys = [k["key"] for k in load_known() if k.get("property") == prop and k.get("status") == "open"]
@@ -458,7 +488,8 @@ def main():
         selftest(sys.argv[2:] or ["C01"])
     elif sys.argv[1] == "build":
         build()
-        print("built", BIN)
+        shutil.copy(BIN, os.path.join(BUILD, "sim.test"))
+        print("built", os.path.join(BUILD, "sim.test"))
     else:
         prop = sys.argv[1]
         tier = sys.argv[2] if len(sys.argv) > 2 else os.environ.get("VERIF_TIER", "quick")
